@@ -503,8 +503,7 @@ class Polygon(Shape2D):
             except np.linalg.LinAlgError:
                 current_rotation = rowan.random.rand(1)
                 vertices = rowan.rotate(current_rotation, vertices)
-
-        if attempt == max_attempts:
+        else:
             raise RuntimeError("Unable to solve for a bounding circle.")
 
         # The center must be rotated back to undo any rotation.
